@@ -25,12 +25,13 @@ theorem reqUnprot_sendable {A : Ctx} (hA : A.wf) {seq : Nat} (hs : seq < maxSeqn
   refine ⟨?_, ?_⟩
   · intro p hp
     simp only [Option.some.injEq] at hp
-    subst hp; exact shortPiv_length hs
+    subst hp; exact ⟨(shortPiv_length hs).1, (shortPiv_length hs).2, shortPiv_minimal seq⟩
   · intro c hc
     exact hA.idctx c hc
 
 theorem respUnprot_sendable (A : Ctx) {piv : Option Bytes}
-    (hp : ∀ p, piv = some p → 1 ≤ p.length ∧ p.length ≤ 5) : (respUnprot A piv).sendable := by
+    (hp : ∀ p, piv = some p → 1 ≤ p.length ∧ p.length ≤ 5 ∧ pivMinimal p = true) :
+    (respUnprot A piv).sendable := by
   refine ⟨hp, ?_⟩
   intro c hc
   simp at hc
@@ -141,7 +142,8 @@ theorem recv_response {E : AEAD} {A B : Ctx} {seq : Nat} {m : Msg} {r rc : ReqId
     rw [this]
     simp [hAB.alg, hk, hp, hcr]
   · have hu := uncompress_of_compress (respUnprot_sendable A (piv := some (shortPiv seq))
-      (by intro p hp; cases hp; exact shortPiv_length hseq)) hc
+      (by intro p hp; cases hp
+          exact ⟨(shortPiv_length hseq).1, (shortPiv_length hseq).2, shortPiv_minimal seq⟩)) hc
     have hsel : selectPiv B (some rc) (responseCode r.style) (respUnprot A (some (shortPiv seq))) =
         .ok { piv := shortPiv seq, gen := B.recipientId, seqno := some (beToNat (shortPiv seq)),
               rid := rc } := by
